@@ -81,6 +81,12 @@ SHAPES = {
     "array_mult": ("", "mixed *a = allocate(N); return a + a + a + a;", False),
     "read_big": ("", 'return read_file("/big.txt");', False),
     "str_join_long": ("", 'string s = repeat_string("a", N); return s + s + s + s + s + s + s + s;', False),
+    # literal aggregates: every element is pushed by its own instruction (string constant, local, global, number) before the aggregate is built
+    "lit_array_strings": ("", 'return ({ REP<"s%d"> });', False),
+    "lit_array_locals": ("mixed gl = 5;", 'int a = 1; string s = "x"; return ({ REP<a, s, gl, %d> });', False),
+    "lit_mapping": ("mixed gl = 5;", 'string s = "x"; return ([ REP<"k%d":s> ]);', False),
+    "lit_in_call": ("mixed gl = ({ 1 });", 'return sizeof(({ REP<gl> }));', False),
+    "lit_in_rec": ("mixed gl = 7; mixed f(int d) { if (d < 3) return f(d + 1); return ({ REP<gl, d> }); }", 'return f(0);', False),
     "add_eq_num": ("", 'mixed s = repeat_string("a", N); s += 12345; s += 1.5; return s;', False),
 }
 PEER = 'int ping(object o, int n) { return call_other(o, "f", n + 1); }\nvoid create() { }\n'
@@ -108,9 +114,22 @@ def make_configs(rnd):
     return out
 
 
+def expand_rep(text, n):
+    """REP<item> -> the item min(n, 4000) times (each %d replaced by its index), ten to a source line"""
+    import re
+
+    def rep(m):
+        k = min(n, 4000)
+        items = [m.group(1).replace("%d", str(i)) for i in range(k)]
+        return "\n" + "".join("  " + ", ".join(items[j:j + 10]) + ",\n" for j in range(0, k, 10))
+    return re.sub(r"REP<([^>]*)>", rep, text)
+
+
 def render(case):
     helpers, body, _ = SHAPES[case["shape"]]
     body = body.replace("N", str(case["n"]))
+    helpers = expand_rep(helpers, case["n"])
+    body = expand_rep(body, case["n"])
     src = "void create() { seteuid(getuid()); }\nmixed g_e;\nmixed *mk(int n) { return map(allocate(n), (: \"abcdefgh\" :)); }\n" + helpers + "\nmixed inner() { " + body + " }\n"
     if case["catch"] == 0:
         src += "mixed run() { return inner(); }\n"
